@@ -303,6 +303,26 @@ package pilosa
 //@   ensures result == c.state
 //@   modifies nothing
 
-// ---- C17: MinRow / MaxRow reducers (closures of executeMinRow / executeMaxRow) ---------
-//@ contract (*executor).executeMinRow$2 props C17
-//@   ensures true
+// ---- C16 / C17: MinRow / MaxRow reducers (closures of executeMinRow / executeMaxRow) ----
+// A partial result is a Pair{ID, Count}; Count == 0 (or a non-Pair) means "this shard
+// has no row".  The reducers must treat such partials as the identity, pick the
+// extreme row otherwise, and add the counts of the same row, so that the result does
+// not depend on how shards are grouped or in which order they arrive.
+//@ spec pcnt(x interface{}) = typeis(x, Pair) ? ifaceval(x, Pair).Count : 0
+//@ spec pid(x interface{}) = typeis(x, Pair) ? ifaceval(x, Pair).ID : 0
+//@ contract (*executor).executeMinRow$2 props C16,C17
+//@   requires pcnt(prev) + pcnt(v) <= 18446744073709551615
+//@   ensures typeis(result, Pair)
+//@   ensures pcnt(prev) > 0 && pcnt(v) > 0 && pid(prev) == pid(v) ==> pid(result) == pid(v) && pcnt(result) == pcnt(prev) + pcnt(v)
+//@   ensures pcnt(prev) > 0 && pcnt(v) > 0 && pid(prev) < pid(v) ==> pid(result) == pid(prev) && pcnt(result) == pcnt(prev)
+//@   ensures pcnt(prev) > 0 && pcnt(v) > 0 && pid(prev) > pid(v) ==> pid(result) == pid(v) && pcnt(result) == pcnt(v)
+//@   ensures pcnt(prev) > 0 && pcnt(v) == 0 ==> pid(result) == pid(prev) && pcnt(result) == pcnt(prev)
+//@   ensures pcnt(prev) == 0 ==> pid(result) == pid(v) && pcnt(result) == pcnt(v)
+//@ contract (*executor).executeMaxRow$2 props C16,C17
+//@   requires pcnt(prev) + pcnt(v) <= 18446744073709551615
+//@   ensures typeis(result, Pair)
+//@   ensures pcnt(prev) > 0 && pcnt(v) > 0 && pid(prev) == pid(v) ==> pid(result) == pid(v) && pcnt(result) == pcnt(prev) + pcnt(v)
+//@   ensures pcnt(prev) > 0 && pcnt(v) > 0 && pid(prev) > pid(v) ==> pid(result) == pid(prev) && pcnt(result) == pcnt(prev)
+//@   ensures pcnt(prev) > 0 && pcnt(v) > 0 && pid(prev) < pid(v) ==> pid(result) == pid(v) && pcnt(result) == pcnt(v)
+//@   ensures pcnt(prev) > 0 && pcnt(v) == 0 ==> pid(result) == pid(prev) && pcnt(result) == pcnt(prev)
+//@   ensures pcnt(prev) == 0 ==> pid(result) == pid(v) && pcnt(result) == pcnt(v)
